@@ -16,6 +16,7 @@ ASSUMPTIONS = [
     "compat: numpy aliases Inf/NINF/row_stack/linalg.linalg restored before importing elfi",
     "compat: float(size-1 ndarray) converts through .item() inside elfi.methods.{bo.gpy_regression,mcmc,posteriors}",
     "compat: elfi.methods.inference.bsl.ModelPrior.logpdf returns .item() for size-1 results",
+    "compat (C19 end-to-end cases only): `float` inside elfi.methods.inference.romc converts size-1 arrays through .item() and still works as a dtype",
 ]
 
 for _a, _b in [('Inf', np.inf), ('NINF', -np.inf), ('row_stack', np.vstack)]:
@@ -59,6 +60,25 @@ def install(quiet=True):
     bsl.ModelPrior = BslPrior
     _installed = True
     return elfi
+
+
+class _FloatShim:
+    """Stand-in for the builtin `float` inside elfi.methods.inference.romc: converts size-1 arrays through .item()
+    (numpy <= 2.4 semantics) and is still accepted by numpy as `dtype=float` / in isinstance checks."""
+    dtype = np.dtype(builtins.float)
+
+    def __call__(self, x=0.0):
+        return _float(x)
+
+    def __instancecheck__(self, obj):
+        return isinstance(obj, builtins.float)
+
+
+def install_romc_float():
+    """Only needed for ROMC end-to-end runs (C19): romc.py also uses `float` as a dtype, so it gets a callable shim."""
+    import elfi.methods.inference.romc as R
+    if not isinstance(getattr(R, 'float', None), _FloatShim):
+        R.float = _FloatShim()
 
 
 class SqueezedPrior:
